@@ -356,6 +356,11 @@ func genC12(master uint64, idx int) *Workload {
 				dc.Text = gen.Doc(r)
 			}
 			dc.CapSeed = r.Next() | 1
+			if d.Kind == "typed" && r.Chance(2, 3) {
+				// documents of DIFFERENT Go types behind one compiled expression
+				dc.Name = typedDocNames[r.Intn(len(typedDocNames))]
+				dc.CapSeed = typedSeed(r)
+			}
 			w.Docs = append(w.Docs, dc)
 			var ops []Op
 			for o := nops(); o > 0; o-- {
@@ -419,6 +424,10 @@ func genC12(master uint64, idx int) *Workload {
 				dc.Text = gen.Doc(r)
 			}
 			dc.CapSeed = r.Next() | 1
+			if d.Kind == "typed" {
+				dc.Name = typedDocNames[r.Intn(len(typedDocNames))]
+				dc.CapSeed = typedSeed(r)
+			}
 			w.Docs = append(w.Docs, dc)
 		}
 		nc = 3 + r.Intn(2)
